@@ -3,6 +3,7 @@
 package props
 
 import (
+	"bytes"
 	"fmt"
 	"math/big"
 	"testing"
@@ -37,18 +38,19 @@ type c02Case struct {
 
 // tuple is a multiproof statement + proof on the reference side (representations included).
 type tuple struct {
-	label  string
-	Cs     []hx.RPt
-	zs     []int
-	ys     []*big.Int
-	D      hx.RPt
-	L, R   []hx.RPt
-	A      *big.Int
-	class  string // value | rep | shape | arbitrary | zero_elem | identical
-	zeroAt string // which component holds the all-zero pseudo-element
-	lenYs  int    // -1 = len(Cs)
-	lenZs  int
-	share  bool // hand bit-identical commitments (and equal claimed values) to go-ipa through ONE shared pointer
+	label   string
+	Cs      []hx.RPt
+	zs      []int
+	ys      []*big.Int
+	D       hx.RPt
+	L, R    []hx.RPt
+	A       *big.Int
+	class   string // value | rep | shape | arbitrary | zero_elem | identical
+	zeroAt  string // which component holds the all-zero pseudo-element
+	lenYs   int    // -1 = len(Cs)
+	lenZs   int
+	viaRead bool // the proof object is what MultiProof.Read produces from the serialized proof (composition decoder -> verifier)
+	share   bool // hand bit-identical commitments (and equal claimed values) to go-ipa through ONE shared pointer
 }
 
 func (t tuple) clone() tuple {
@@ -366,6 +368,28 @@ func multiVerdicts(t tuple) (refOK bool, refErr error, implOK bool, implErr erro
 	}
 	cfg := Cfg()
 	proof := &multiproof.MultiProof{D: hx.ToImpl(t.D), IPA: ipa.IPAProof{L: hx.ToImplSlice(t.L), R: hx.ToImplSlice(t.R), A_scalar: hx.FrFromBig(t.A)}}
+	if t.viaRead && len(t.L) == 8 && len(t.R) == 8 && t.class != "zero_elem" {
+		ok := hx.G.IsValid(t.D)
+		for i := 0; i < 8 && ok; i++ {
+			ok = hx.G.IsValid(t.L[i]) && hx.G.IsValid(t.R[i])
+		}
+		if ok { // the verifier sees the proof as it comes off the wire
+			d := hx.G.Compress(t.D)
+			wire := append([]byte(nil), d[:]...)
+			for _, side := range [][]hx.RPt{t.L, t.R} {
+				for _, p := range side {
+					e := hx.G.Compress(p)
+					wire = append(wire, e[:]...)
+				}
+			}
+			wire = append(wire, ref.LE32(ref.FrMod(t.A))...)
+			var decoded multiproof.MultiProof
+			var rerr error
+			if perr := hx.Try(func() { rerr = decoded.Read(bytes.NewReader(wire)) }); perr == nil && rerr == nil {
+				proof = &decoded
+			}
+		}
+	}
 	Cs := make([]*banderwagon.Element, len(t.Cs))
 	sharedC := map[hx.RPt]*banderwagon.Element{}
 	for k := range t.Cs {
@@ -431,7 +455,7 @@ func evalC02(c c02Case, rec *hx.Rec) error {
 	runNoise(c.Set.Noise, 3, true)
 	// honest proof from the reference prover
 	rproof := ref.MultiProve(hx.G, ref.NewTranscript(c.Set.Label), b.CsRef, b.fsBig, b.zsInt)
-	h := tuple{label: c.Set.Label, Cs: b.CsRef, zs: b.zsInt, ys: b.ysBig, D: rproof.D, L: rproof.IPA.L, R: rproof.IPA.R, A: rproof.IPA.A, class: "honest", lenYs: -1, lenZs: -1, share: c.Set.ShareY}
+	h := tuple{label: c.Set.Label, Cs: b.CsRef, zs: b.zsInt, ys: b.ysBig, D: rproof.D, L: rproof.IPA.L, R: rproof.IPA.R, A: rproof.IPA.A, class: "honest", lenYs: -1, lenZs: -1, share: c.Set.ShareY, viaRead: hx.Hash64(fmt.Sprint(c.Set.Open))%2 == 0}
 	// a second honest proof (same polynomials, indices shifted) for splices
 	zs2 := make([]int, len(b.zsInt))
 	for i, z := range b.zsInt {
